@@ -107,7 +107,9 @@ func failingAppends(r *fw.Run) {
 
 // hugeLogs checks TreeHash, ProveRecord/CheckRecord and ProveTree/CheckTree on logs of identical
 // records with sizes around every power of two up to 2^62 and with sparse and dense bit patterns.
-func hugeLogs(r *fw.Run) {
+// HugeLogs checks TreeHash, the provers and the checkers on virtual logs of up to 2^62 identical records
+// against RFC 6962 computed independently (every subtree hash of such a log depends on its size only).
+func HugeLogs(r *fw.Run) {
 	l := fw.NewLocal()
 	defer r.Merge(l)
 	leaf := tlog.RecordHash([]byte("same\n"))
@@ -143,8 +145,8 @@ func hugeLogs(r *fw.Run) {
 	}
 	var sizes []int64
 	for k := uint(1); k <= 62; k++ {
-		for _, d := range []int64{-3, -2, -1, 0, 1, 2, 3} {
-			if n := int64(1)<<k + d; n >= 1 && n <= 1<<62 {
+		for _, d := range []int64{-3, -2, -1, 0, 1, 2, 3, 5, 8, 255, 256, 257, 65536, int64(1) << (k / 2), int64(1)<<(k/2) + 1} {
+			if n := int64(1)<<k + d; n >= 1 && n <= 1<<62 && d < int64(1)<<k {
 				sizes = append(sizes, n)
 			}
 		}
@@ -170,19 +172,86 @@ func hugeLogs(r *fw.Run) {
 			continue
 		}
 		l.Nontrivial++
-		for _, m := range []int64{0, 1, n / 2, n - 2, n - 1, int64(1)<<uint(62-bits.LeadingZeros64(uint64(n))) - 1} {
+		pow := int64(1) << uint(63-bits.LeadingZeros64(uint64(n))) // largest power of two <= n
+		for _, m := range []int64{0, 1, n / 2, n - 2, n - 1, pow/2 - 1, pow - 1, pow, pow + 1, pow + (n-pow)/2} {
 			if m < 0 || m >= n {
 				continue
 			}
 			l.Execs += 2
+			// RFC 6962 2.1.1 audit path, innermost sibling first
+			var refPath func(m, n int64) []tlog.Hash
+			refPath = func(m, n int64) []tlog.Hash {
+				if n == 1 {
+					return nil
+				}
+				k := int64(1) << uint(63-bits.LeadingZeros64(uint64(n-1)))
+				if m < k {
+					return append(refPath(m, k), mth(n-k))
+				}
+				return append(refPath(m-k, n-k), mth(k))
+			}
+			wantP := refPath(m, n)
 			p, err := tlog.ProveRecord(n, m, rd)
-			if err != nil || tlog.CheckRecord(p, n, want, m, leaf) != nil {
-				r.Violation(fmt.Sprintf("huge:record:%d:%d", n, m), fmt.Sprintf("ProveRecord(%d,%d) over a log of identical records gives a proof that CheckRecord rejects against the RFC 6962 root (err=%v)", n, m, err), caseT{Kind: "huge", N: n, M: m})
+			// tlog uses the RFC's order: innermost sibling first
+			same := err == nil && len(p) == len(wantP)
+			for i := 0; same && i < len(p); i++ {
+				same = p[i] == wantP[i]
+			}
+			if !same {
+				r.Violation(fmt.Sprintf("huge:record:%d:%d", n, m), fmt.Sprintf("ProveRecord(%d,%d) over a log of identical records is not the RFC 6962 audit path (err=%v, %d hashes, RFC has %d)", n, m, err, len(p), len(wantP)), caseT{Kind: "huge", N: n, M: m})
+			}
+			rp := make(tlog.RecordProof, len(wantP))
+			for i := range wantP {
+				rp[i] = wantP[i]
+			}
+			if err := tlog.CheckRecord(rp, n, want, m, leaf); err != nil {
+				r.Violation(fmt.Sprintf("huge:checkrecord:%d:%d", n, m), fmt.Sprintf("CheckRecord rejects the RFC 6962 audit path of record %d in a log of %d identical records: %v", m, n, err), caseT{Kind: "huge", N: n, M: m})
+			}
+			if len(rp) > 0 {
+				bad := append(tlog.RecordProof(nil), rp...)
+				bad[len(bad)/2][7] ^= 1
+				if tlog.CheckRecord(bad, n, want, m, leaf) == nil {
+					r.Violation(fmt.Sprintf("huge:checkrecord-forged:%d:%d", n, m), fmt.Sprintf("CheckRecord accepts an audit path with one flipped bit (record %d, log of %d)", m, n), caseT{Kind: "huge", N: n, M: m})
+				}
 			}
 			if m >= 1 {
+				// RFC 6962 2.1.2 consistency proof
+				var sub func(m, n int64, b bool) []tlog.Hash
+				sub = func(m, n int64, b bool) []tlog.Hash {
+					if m == n {
+						if b {
+							return nil
+						}
+						return []tlog.Hash{mth(m)}
+					}
+					k := int64(1) << uint(63-bits.LeadingZeros64(uint64(n-1)))
+					if m <= k {
+						return append(sub(m, k, b), mth(n-k))
+					}
+					return append(sub(m-k, n-k, false), mth(k))
+				}
+				wantT := sub(m, n, true)
 				tp, err := tlog.ProveTree(n, m, rd)
-				if err != nil || tlog.CheckTree(tp, n, want, m, mth(m)) != nil {
-					r.Violation(fmt.Sprintf("huge:tree:%d:%d", n, m), fmt.Sprintf("ProveTree(%d,%d) over a log of identical records gives a proof that CheckTree rejects against the RFC 6962 roots (err=%v)", n, m, err), caseT{Kind: "huge", N: n, M: m})
+				same := err == nil && len(tp) == len(wantT)
+				for i := 0; same && i < len(tp); i++ {
+					same = tp[i] == wantT[i]
+				}
+				if !same {
+					r.Violation(fmt.Sprintf("huge:tree:%d:%d", n, m), fmt.Sprintf("ProveTree(%d,%d) over a log of identical records is not the RFC 6962 consistency proof (err=%v, %d hashes, RFC has %d)", n, m, err, len(tp), len(wantT)), caseT{Kind: "huge", N: n, M: m})
+				}
+				rt := make(tlog.TreeProof, len(wantT))
+				for i := range wantT {
+					rt[i] = wantT[i]
+				}
+				if err := tlog.CheckTree(rt, n, want, m, mth(m)); err != nil {
+					r.Violation(fmt.Sprintf("huge:checktree:%d:%d", n, m), fmt.Sprintf("CheckTree rejects the RFC 6962 consistency proof between %d and %d identical records: %v", m, n, err), caseT{Kind: "huge", N: n, M: m})
+				}
+				if len(rt) > 0 {
+					bad := append(tlog.TreeProof(nil), rt...)
+					bad[len(bad)/2][9] ^= 1
+					if tlog.CheckTree(bad, n, want, m, mth(m)) == nil {
+						r.Violation(fmt.Sprintf("huge:checktree-forged:%d:%d", n, m), fmt.Sprintf("CheckTree accepts a consistency proof with one flipped bit (%d, %d)", m, n), caseT{Kind: "huge", N: n, M: m})
+					}
 				}
 			}
 		}
@@ -609,7 +678,7 @@ func Run(r *fw.Run) {
 
 	// virtual huge logs: a log whose records are all identical has one hash per level, so a HashReader for
 	// a log of up to 2^62 records and the RFC 6962 tree hash of any size can be computed without storing it
-	hugeLogs(r)
+	HugeLogs(r)
 
 	// record lengths: the leaf hash is SHA-256(0x00 || data) for every length (block boundaries, buffers)
 	{
@@ -793,7 +862,7 @@ func Replay(r *fw.Run, raw json.RawMessage) {
 	case "overlap":
 		Overlap(r)
 	case "huge":
-		hugeLogs(r)
+		HugeLogs(r)
 	case "failing":
 		failingAppends(r)
 	case "recordhash":
